@@ -81,7 +81,8 @@ def r1(ctx, facts, model):
                 c = t["callee"]
                 pth = c.get("path", "")
                 st = c.get("self_ty") or ""
-                if "sync::atomic::Atomic" in pth or "sync::atomic::Atomic" in st:
+                if ("sync::atomic::Atomic" in pth or "sync::atomic::Atomic" in st) and c.get("crate") != "specs":
+                    # (crate-local methods of a private new-type around an atomic are bodies of their own and are walked like any other)
                     if c.get("name") not in OK_ATOMIC:
                         bad_atomic.append("%s at %s" % (pth, b.loc(bb)))
                 if "AtomicBitSet" in pth or "AtomicBitSet" in st:
